@@ -17,6 +17,16 @@ CLOCK0 = 1000000
 
 
 # ---------------------------------------------------------------------------- cases
+# The property asks for a report on stderr under the failing host's own name; it does not fix the WORDING.  A report =
+# a line with pdsh's own prefix that names the host.  Which of a worker's reports is the command-timeout one is
+# decided by when it comes (after a successful connect) and loosely by its text: timeout / timed out / time-out.
+TIMEOUT_RE = re.compile(rb"(?i)time(d[ -]?|[ -])?out")
+
+
+def names_host(data, name):
+    return re.match(rb"^pdsh@[^:]*: " + re.escape(name.encode()) + rb": ", data) is not None
+
+
 def line_bytes(i, stream, j, n):
     """the j-th data item of host i on a stream: exactly n bytes, one text line"""
     body = ("%s%d.%d" % (stream, i, j)).ljust(n - 1, "+")[:n - 1]
@@ -40,19 +50,15 @@ def mk_host(i, beh):
         h["life"] = beh["life"]          # the remote command exits this many seconds after the connect (-1: never)
     if beh.get("ignoreterm"):
         h["ignoreterm"] = 1              # ... and a forwarded SIGTERM does not end it
+    if beh.get("termgrace"):
+        h["termgrace"] = beh["termgrace"]  # ... or ends it only that many seconds later
     return h
-
-
-def model_compatible(behs):
-    """the Timed LTS tears a connection down in no time: runs in which rcmd_destroy() has to wait for a command that
-    outlives its streams / ignores SIGTERM are judged by the monitors only"""
-    return not any(b.get("ignoreterm") or b.get("life", -1) >= 0 for b in behs)
 
 
 def mk_case(behs, fanout, ct, ut, sopt, seed, strategy="uniform", yld="fan", spurious=None):
     c = {"fanout": fanout, "hosts": [mk_host(i, b) for i, b in enumerate(behs)], "behaviours": behs,
          "yield": yld, "inline": 1, "strategy": strategy, "seed": seed, "tickrate": 0,
-         "budget": 6000 + 800 * len(behs), "nomodel": not model_compatible(behs),
+         "budget": 6000 + 800 * len(behs),
          "opts": {"ct": ct, "ut": ut, "sopt": 1 if sopt else 0, "labels": 1, "reltime": 1, "connerr": 1}}
     if spurious:
         c["spurious"] = spurious
@@ -86,6 +92,12 @@ def alphabet(ct, ut):
         "outlives": {"conn": ["ok", 0], "out": [[0, 4], [0, "EOF"]], "err": [[0, "EOF"]], "life": 5},
         # hangs mid-command and ignores the SIGTERM it gets on command timeout; gone after 6 s
         "stubborn": {"conn": ["ok", 0], "out": [[0, 8], [-1, "EOF"]], "err": [[-1, "EOF"]], "life": 6, "ignoreterm": 1},
+        # hangs mid-command, would run for ever, and takes 3 s to die after the SIGTERM it gets on command timeout
+        "lingers": {"conn": ["ok", 0], "out": [[0, 8], [-1, "EOF"]], "err": [[-1, "EOF"]], "life": -1, "termgrace": 3},
+        # hangs mid-command, never exits and ignores SIGTERM (`trap "" TERM; sleep infinity`)
+        "immortal": {"conn": ["ok", 0], "out": [[0, 8], [-1, "EOF"]], "err": [[-1, "EOF"]], "life": -1, "ignoreterm": 1},
+        # closes its streams at once and then runs for ever (`exec >&- 2>&-; sleep infinity`): no SIGTERM is ever sent
+        "outlives-forever": {"conn": ["ok", 0], "out": [[0, 4], [0, "EOF"]], "err": [[0, "EOF"]], "life": -1},
     }
     # boundaries of the two deadlines: exactly at / just after the timeout, and beyond timeout + WDOG_POLL
     for k, d in (("conn-at", ct), ("conn-over", ct + 1), ("conn-far", ct + WDOG_POLL + 1)):
@@ -111,9 +123,25 @@ def excluded(case):
             streams = ["out", "err"] if case["opts"]["sopt"] else ["out"]
             if any(t < 0 for s in streams for t, _ in b.get(s, [])):
                 return True
-        if b.get("life", 0) < 0 and b.get("ignoreterm"):
-            return True                # never exits, cannot be told to: the teardown waits for ever
+        if b["conn"][0] == "ok" and b.get("life", 0) < 0 and ut == 0:
+            return True                # never exits and no command timeout: pdsh waits, as documented
     return False
+
+
+def teardown_waiters(res):
+    """targets whose worker sits in rcmd_destroy() when the run ends: (index, never exits by itself, was sent SIGTERM)"""
+    n = len(res["case"]["hosts"])
+    inside, termed = set(), set()
+    for _, _, th, ev in events(res):
+        if ev[0] == "fwd" and 0 <= int(ev[1]) < n and int(ev[2]) in (2, 15):
+            termed.add(int(ev[1]))
+        if not th.startswith("W") or int(th[1:]) >= n:
+            continue
+        if ev[0] == "destroyBegin":
+            inside.add(int(th[1:]))
+        elif ev[0] == "destroyEnd":
+            inside.discard(int(th[1:]))
+    return [(i, res["case"]["behaviours"][i].get("life", 0) < 0, i in termed) for i in sorted(inside)]
 
 
 # ---------------------------------------------------------------------------- events
@@ -176,8 +204,8 @@ def observe(res):
                 else:
                     if re.match(rb"^pdsh@[^:]*: ", data):
                         h["reports"].append((now, data))
-                        if b"command timeout" in data:
-                            h["timeout_at"] = now
+                        if TIMEOUT_RE.search(data) and h["connret"] is not None and h["connret"] >= 0:
+                            h["timeout_at"] = now          # given up on while its command was running
                     else:
                         h["stderr"] += data
             elif ev[0] == "destroyBegin":
@@ -227,7 +255,23 @@ def offenders(res):
     elif status == "deadlock" and excl:
         return out                     # a hanging host with its timeout switched off: pdsh waits, as documented
     elif status == "deadlock":
-        out.append(("no-return", "no runnable thread and time cannot help although every hang is covered by a timeout"))
+        # is the run waiting, inside rcmd_destroy(), for a command that never exits: one that ignores the SIGTERM it
+        # was sent at the command timeout, or one that closed its streams and was therefore never sent a signal?
+        tw = teardown_waiters(res)
+        Hs = observe(res)
+        # (a) reported as timed out, sent SIGTERM, ignores it; (b) ended normally, never sent anything, runs on
+        imm = [(i, t) for i, never, t in tw if never and
+               ((Hs[i]["timeout_at"] is not None and t and case["behaviours"][i].get("ignoreterm")) or
+                (Hs[i]["timeout_at"] is None and not t))]
+        if tw and len(imm) == len(tw):
+            out.append(("no-return:teardown-waits-for-command",
+                        "command timeout %d, but dsh() never returns: %s; the command timeout does not apply to the "
+                        "teardown" % (ut, "; ".join(
+                            "%s: rcmd_destroy waits for its command, which %s" %
+                            (case["hosts"][i]["name"], "ignores the SIGTERM it was sent at the command timeout" if t
+                             else "closed its streams and runs on (no signal is ever sent to it)") for i, t in imm))))
+        else:
+            out.append(("no-return", "no runnable thread and time cannot help although every hang is covered by a timeout"))
     elif status in ("budget", "spin"):
         out.append(("no-termination", "step budget exceeded / a thread spins"))
     elif status == "exit":
@@ -250,7 +294,7 @@ def offenders(res):
             if status == "ok":
                 out.append(("not-started", "%s: connect never completed although dsh() returned" % name))
             continue
-        total_bound += max(0, beh.get("life", 0))
+        total_bound += max(0, beh.get("life", 0)) + beh.get("termgrace", 0)
         # ---- the outcome the worker leaves in its slot (thd_t.state when it enters its epilogue)
         fin = (res.get("finals") or {}).get("W%d" % i)
         if fin is not None:
@@ -280,7 +324,7 @@ def offenders(res):
             if h["cend"] > h["start"] + ct + WDOG_POLL:
                 out.append(("connect-deadline", "%s still connecting at %d, started %d, connect timeout %d" %
                             (name, h["cend"], h["start"], ct)))
-            if not any(name.encode() + b": connect: timed out" in r for _, r in h["reports"]):
+            if not any(names_host(r, name) for _, r in h["reports"]):
                 out.append(("not-reported", "%s: connect timed out but nothing on stderr under its name" % name))
             continue
         if must_to:
@@ -292,7 +336,7 @@ def offenders(res):
         if kind == "refuse":
             if h["connret"] >= 0:
                 out.append(("refused-but-connected", name))
-            elif not any(name.encode() + b": connect: " in r for _, r in h["reports"]):
+            elif not any(names_host(r, name) for _, r in h["reports"]):
                 out.append(("not-reported", "%s: connection refused but nothing on stderr under its name" % name))
             continue
         if h["connret"] < 0:
@@ -319,7 +363,7 @@ def offenders(res):
                              " (the watchdog's SIGALRM at %s found the worker outside xpoll, relaying output, and "
                              "was lost)" % lost if lost else "")))
                 slip += WDOG_POLL * len(lost)
-            if not any((b": " + name.encode() + b": command timeout") in r for _, r in h["reports"]):
+            if not any(names_host(r, name) and TIMEOUT_RE.search(r) for t, r in h["reports"] if t >= h["timeout_at"]):
                 out.append(("not-reported", "%s: command timeout not reported under its own name" % name))
             if not scripted(host, "out").startswith(got_out):
                 out.append(("output-corrupted", "%s: stdout before the timeout is not a prefix of what it sent" % name))
@@ -399,8 +443,11 @@ def project(res, variant, selfcheck=False, stopwdog=False):
     L = ["init %s %d %d %d %d %d %d" % (variant, case["fanout"], o["ct"], o["ut"], o["sopt"], 1 if selfcheck else 0,
                                         1 if stopwdog else 0)]
     for b in case["behaviours"]:
-        L.append("host %s %d %s %s" % (b["conn"][0], b["conn"][1] if len(b["conn"]) > 1 else 0,
-                                        items_text(b, "out"), items_text(b, "err")))
+        life = b.get("life", 0)
+        L.append("host %s %d %s %s %s %s" % (b["conn"][0], b["conn"][1] if len(b["conn"]) > 1 else 0,
+                                              items_text(b, "out"), items_text(b, "err"),
+                                              "-" if life < 0 else life,
+                                              "-" if b.get("ignoreterm") else b.get("termgrace", 0)))
     L.append("go")
     n = len(case["hosts"])
     got = [[0, 0] for _ in range(n)]
@@ -423,7 +470,8 @@ def project(res, variant, selfcheck=False, stopwdog=False):
                 got[i][(int(t[2]) - 1000) % 2] += int(t[4])
             elif t[1] == "close":
                 closed[i][(int(t[2]) - 1000) % 2] = True
-            elif t[1] == "fputs" and t[2] == "2" and b"command timeout" in bytes.fromhex(t[3] if t[3] != "-" else ""):
+            elif t[1] == "fputs" and t[2] == "2" and resv[i] == "none" and \
+                    TIMEOUT_RE.search(bytes.fromhex(t[3] if t[3] != "-" else "")):
                 resv[i] = "cmdTimedOut"
         if resv[i] == "none" and closed[i][0] and (closed[i][1] or not sopt):
             resv[i] = "done"
@@ -466,6 +514,8 @@ def project(res, variant, selfcheck=False, stopwdog=False):
             continue
         if st:
             L.append(st)
+        if th.startswith("W") and e == "destroyEnd":
+            fe = list(fe) + ["eintr" if "EINTR-not-reaped" in ev else "reaped"]
         L.append("ev " + " ".join(fe))
         if th.startswith("W") and e == "connectEnd":
             i = int(th[1:])
